@@ -966,7 +966,20 @@ func (sc *Scenario) itAllowedDenoms() *Item {
 // prefixFirst orders ids so that those that are a proper string prefix of another id (C10 / C100),
 // or have one, come first; the rest follows in a random order.
 func prefixFirst(r *common.Rng, ids []string) []string {
-	var hot, cold []string
+	var hot, cold, lead []string
+	// one random pair (x, y) with x a proper prefix of y always leads
+	var pairs [][2]string
+	for _, x := range ids {
+		for _, y := range ids {
+			if x != y && strings.HasPrefix(y, x) {
+				pairs = append(pairs, [2]string{x, y})
+			}
+		}
+	}
+	if len(pairs) > 0 {
+		p := pairs[r.Intn(len(pairs))]
+		lead = []string{p[0], p[1]}
+	}
 	for _, x := range ids {
 		h := false
 		for _, y := range ids {
@@ -983,7 +996,7 @@ func prefixFirst(r *common.Rng, ids []string) []string {
 	}
 	shuffle(r, hot)
 	shuffle(r, cold)
-	return append(hot, cold...)
+	return uniq(append(append(lead, hot...), cold...))
 }
 
 func shuffle[T any](r *common.Rng, xs []T) {
@@ -1049,22 +1062,16 @@ func (sc *Scenario) Items(r *common.Rng) []*Item {
 			}
 		}
 	}
-	pc := prefixFirst(r, classIDs)
-	var classArgs []string
-	for _, id := range pc {
+	var withBatches, withoutBatches []string
+	for _, id := range classIDs {
 		if classWithBatches[id] {
-			classArgs = append(classArgs, id)
+			withBatches = append(withBatches, id)
+		} else {
+			withoutBatches = append(withoutBatches, id)
 		}
 	}
-	classArgs = take(classArgs, 4)
-	for _, id := range pc {
-		if len(classArgs) >= 5 {
-			break
-		}
-		if !classWithBatches[id] {
-			classArgs = append(classArgs, id)
-		}
-	}
+	classArgs := take(prefixFirst(r, withBatches), 4)
+	classArgs = append(classArgs, take(prefixFirst(r, withoutBatches), 5-len(classArgs))...)
 	// absent class ids: a prefix and an extension of a present id, and unrelated ones
 	var absentClasses []string
 	for _, cand := range []string{classIDs[0] + "0", classIDs[0][:len(classIDs[0])-1], classIDs[len(classIDs)-1] + "1", "C999", "ZZZ01", "C1", ""} {
